@@ -64,9 +64,10 @@ def reference(pa, rng):
     c = pa.Continuum()
     t = 0.0
     name = rng.choice(["ref", "Alex", "z_ref"])
+    clicks = rng.random() < 0.25          # long turns plus very short clicks (far below 1 % of the mean length)
     for _ in range(rng.randint(1, 8)):
         t += rng.choice([0, 0.5, 1, 3])
-        dur = rng.choice([0.5, 1, 2, 4.5, 7])
+        dur = rng.choice([0.5, 1, 2, 4.5, 7]) if not clicks else rng.choice([0.01, 0.02, 30, 45, 60])
         c.add(name, Segment(t, t + dur), rng.choice(LABELS[:rng.randint(1, 4)]))
         t += dur * rng.choice([0.5, 1, 1])
     return c, name
@@ -107,6 +108,16 @@ def build(pa, rng, count, rep):
             corpus = cst.corpus_from_reference(new_anns)
             names = sorted(set(corpus.annotators))
             annrank = {a: i + 1 for i, a in enumerate(names)}
+            if rng.random() < 0.4:
+                # a two-step sequence: another perturbation first; the judged one starts from what that left behind
+                first = rng.choice([o for o in ops if o != op])
+                try:
+                    {"shift": cst.shift_shuffle, "false_pos": cst.false_pos_shuffle, "false_neg": cst.false_neg_shuffle,
+                     "cat_shuffle": cst.category_shuffle, "split": cst.splits_shuffle}[first](corpus)
+                    meta["first_perturbation"] = first
+                except Exception as ex:
+                    rep.violation("cst.raises", dict(meta, op=first, exception=repr(ex)))
+                    continue
             before = snapshot(corpus, annrank, catrank)
             anns_before = [annrank[a] for a in corpus.annotators]
             try:
@@ -117,7 +128,7 @@ def build(pa, rng, count, rep):
                 continue
             after = snapshot(corpus, annrank, catrank)
             rec = dict(base, op=op, before=before, after=after, anns_before=anns_before, anns_after=[annrank[a] for a in corpus.annotators],
-                       expected_anns=anns_before, magzero=1 if mag == 0.0 else 0)
+                       expected_anns=anns_before, magzero=1 if (mag == 0.0) else 0)
             if op == "split":
                 rec["nsplits"] = int(mag * cst.SPLIT_FACTOR * ref.avg_num_annotations_per_annotator)
             meta["op"] = op
